@@ -501,3 +501,109 @@ Qed.
 Theorem gen_sanitized_refusal_is_bad7z nm path cwd0 cwd e : fs_of cwd0 = FS.mkP 1 cwd ->
   HelpersPath2.get_sanitized_output_path nm path cwd0 = Err e -> e = EBad7z.
 Proof. intros Hc H. exact (proj1 (gen_get_sanitized_output_path_err nm path cwd0 cwd e Hc H)). Qed.
+
+(* ------------------------------------------------------------------ is_real_path_inside *)
+(* The generated function takes what os.path.realpath(target) answered (real0) and real_root, two str.  FS.v works on real
+   paths as lists of names; [render r] is the str of the real path r: "/" for the root, else "/" + "/".join(r).  For names
+   that are not empty and contain no "/", the comparison of the strs ("equal, or begins with root.rstrip('/') + '/'") is the
+   component-wise prefix test FS.real_inside makes. *)
+Definition flat (cs : list str) : str := concat (map (cons 47) cs).
+Definition render (r : list str) : str := match r with [] => [47] | _ => flat r end.
+Definition name_ok (c : str) : Prop := c <> [] /\ slashfree c = true.
+Definition hd47 (X : str) : bool := match X with [] => true | x :: _ => x =? 47 end.
+
+Lemma hd47_flat cs : hd47 (flat cs) = true.
+Proof. destruct cs; reflexivity. Qed.
+Lemma hd47_flat_slash cs : hd47 (flat cs ++ [47]) = true.
+Proof. destruct cs; reflexivity. Qed.
+
+Lemma eq_split : forall d c X Y, slashfree d = true -> slashfree c = true -> hd47 X = true -> hd47 Y = true ->
+  py_str_eqb (d ++ X) (c ++ Y) = py_str_eqb d c && py_str_eqb X Y.
+Proof.
+  induction d as [|x d IH]; intros [|y c] X Y Hd Hc HX HY; cbn [app py_str_eqb].
+  - reflexivity.
+  - cbn [slashfree forallb] in Hc. apply andb_true_iff in Hc as [Hy _]. apply negb_true_iff in Hy.
+    destruct X as [|x0 X]; [reflexivity|]. cbn [hd47] in HX. apply Z.eqb_eq in HX. subst x0. cbn [py_str_eqb].
+    rewrite Z.eqb_sym, Hy. reflexivity.
+  - cbn [slashfree forallb] in Hd. apply andb_true_iff in Hd as [Hx _]. apply negb_true_iff in Hx.
+    destruct Y as [|y0 Y]; [reflexivity|]. cbn [hd47] in HY. apply Z.eqb_eq in HY. subst y0. cbn [py_str_eqb].
+    rewrite Hx. reflexivity.
+  - cbn [slashfree forallb] in Hd, Hc. apply andb_true_iff in Hd as [_ Hd]. apply andb_true_iff in Hc as [_ Hc].
+    rewrite (IH c X Y Hd Hc HX HY), andb_assoc. reflexivity.
+Qed.
+
+Lemma prefix_split : forall d c X Y, slashfree d = true -> slashfree c = true -> hd47 X = true -> hd47 Y = true -> Y <> [] ->
+  py_prefixb (c ++ Y) (d ++ X) = py_str_eqb d c && py_prefixb Y X.
+Proof.
+  induction d as [|x d IH]; intros [|y c] X Y Hd Hc HX HY HYn; cbn [app py_str_eqb].
+  - reflexivity.
+  - cbn [slashfree forallb] in Hc. apply andb_true_iff in Hc as [Hy _]. apply negb_true_iff in Hy.
+    destruct X as [|x0 X]; [reflexivity|]. cbn [hd47] in HX. apply Z.eqb_eq in HX. subst x0. cbn [py_prefixb].
+    rewrite Hy. reflexivity.
+  - cbn [slashfree forallb] in Hd. apply andb_true_iff in Hd as [Hx _]. apply negb_true_iff in Hx.
+    destruct Y as [|y0 Y]; [congruence|]. cbn [hd47] in HY. apply Z.eqb_eq in HY. subst y0. cbn [py_prefixb].
+    rewrite Z.eqb_sym, Hx. reflexivity.
+  - cbn [slashfree forallb] in Hd, Hc. apply andb_true_iff in Hd as [_ Hd]. apply andb_true_iff in Hc as [_ Hc].
+    cbn [py_prefixb]. rewrite (IH c X Y Hd Hc HX HY HYn), andb_assoc, (Z.eqb_sym y x). reflexivity.
+Qed.
+
+Lemma py_str_eqb_fs a : forall b, py_str_eqb a b = FS.str_eqb b a.
+Proof.
+  induction a as [|x a IH]; intros [|y b]; cbn [py_str_eqb FS.str_eqb]; try reflexivity.
+  rewrite IH, (Z.eqb_sym x y). reflexivity.
+Qed.
+
+Lemma flat_prefix : forall root r, Forall name_ok root -> Forall name_ok r ->
+  py_str_eqb (flat r) (flat root) || py_prefixb (flat root ++ [47]) (flat r) = FS.prefixb root r.
+Proof.
+  induction root as [|c cs IH]; intros [|d ds] Hroot Hr.
+  - reflexivity.
+  - reflexivity.
+  - reflexivity.
+  - inversion Hroot as [|? ? [_ Hc] Hcs]; subst. inversion Hr as [|? ? [_ Hd] Hds]; subst.
+    unfold flat. cbn [map concat]. fold (flat cs). fold (flat ds). cbn [app py_str_eqb py_prefixb FS.prefixb].
+    rewrite Z.eqb_refl. cbn [andb]. rewrite <- app_assoc.
+    rewrite (eq_split d c (flat ds) (flat cs) Hd Hc (hd47_flat ds) (hd47_flat cs)).
+    rewrite (prefix_split d c (flat ds) (flat cs ++ [47]) Hd Hc (hd47_flat ds) (hd47_flat_slash cs)) by (destruct (flat cs); discriminate).
+    rewrite <- andb_orb_distrib_r, (IH ds Hcs Hds), py_str_eqb_fs. reflexivity.
+Qed.
+
+Lemma flat_last : forall root, Forall name_ok root -> root <> [] -> exists s x, flat root = s ++ [x] /\ (x =? 47) = false.
+Proof.
+  induction root as [|c cs IH]; intros Hall Hne; [congruence|].
+  inversion Hall as [|? ? [Hcn Hc] Hcs]; subst. destruct cs as [|c2 rest].
+  - destruct (exists_last Hcn) as (c' & x & ->). exists (47 :: c'), x. split.
+    + unfold flat. cbn [map concat]. rewrite app_nil_r. reflexivity.
+    + unfold slashfree in Hc. rewrite forallb_app in Hc. apply andb_true_iff in Hc as [_ Hx]. cbn [forallb] in Hx.
+      rewrite andb_true_r in Hx. apply negb_true_iff in Hx. exact Hx.
+  - destruct (IH Hcs ltac:(discriminate)) as (s & x & Hs & Hx). exists ((47 :: c) ++ s), x. split; [|exact Hx].
+    unfold flat in *. cbn [map concat] in *. rewrite Hs, app_assoc. reflexivity.
+Qed.
+
+Lemma rstrip_flat root : Forall name_ok root -> root <> [] -> py_rstrip (flat root) [47] = flat root.
+Proof.
+  intros Hall Hne. destruct (flat_last root Hall Hne) as (s & x & -> & Hx).
+  unfold py_rstrip. rewrite rev_app_distr. cbn [rev app py_lstrip existsb]. rewrite Hx. cbn [orb].
+  cbn [rev]. rewrite rev_involutive. reflexivity.
+Qed.
+
+Theorem gen_is_real_path_inside (r root : list str) : Forall name_ok r -> Forall name_ok root ->
+  HelpersPath2.is_real_path_inside (render r) (render root) = Ok (FS.prefixb root r).
+Proof.
+  intros Hr Hroot. unfold HelpersPath2.is_real_path_inside, py_posix_normcase. cbv zeta. f_equal.
+  destruct root as [|c cs].
+  - cbn [render FS.prefixb]. change (py_rstrip [47] [47]) with (@nil Z). cbn [app].
+    destruct r as [|d ds]; [reflexivity|]. unfold render, flat, py_startswith. cbn [map concat app py_prefixb].
+    rewrite Z.eqb_refl. apply orb_true_r.
+  - assert (Hne : c :: cs <> []) by discriminate. change (render (c :: cs)) with (flat (c :: cs)).
+    rewrite (rstrip_flat _ Hroot Hne). unfold py_startswith.
+    destruct r as [|d ds].
+    + inversion Hroot as [|? ? [Hcn _] _]; subst. destruct c as [|y c']; [congruence|]. reflexivity.
+    + change (render (d :: ds)) with (flat (d :: ds)). apply flat_prefix; assumption.
+Qed.
+
+(* with FS.v's os.path.realpath: the verdict of check_real_path_inside in the extraction model *)
+Corollary gen_is_real_path_inside_fs f cwd p (r root : list str) : FS.py_realpath f cwd p = Some r ->
+  Forall name_ok r -> Forall name_ok root ->
+  HelpersPath2.is_real_path_inside (render r) (render root) = Ok (FS.real_inside f cwd root p).
+Proof. intros Hp Hr Hroot. unfold FS.real_inside. rewrite Hp. apply gen_is_real_path_inside; assumption. Qed.
